@@ -82,8 +82,14 @@ func (c *chatHandler) handleSessionChat(packet *chat.SessionPlayerChat, unsigned
 
 	c.player.chatQueue.QueuePacket(func(newLastSeenMessages *chat.LastSeenMessages) *future.Future[proto.Packet] {
 		if !evt.Allowed() {
-			if packet.Signed {
-				c.invalidCancel(c.log, c.player)
+			if packet.Signed && c.invalidCancel(c.log, c.player) {
+				return asFuture(nil)
+			}
+			// The message is dropped but the player stays connected: its 'last seen' update
+			// (with the held acknowledgements folded in) must still reach the backend,
+			// as for a consumed command.
+			if newLastSeenMessages != nil && newLastSeenMessages.Offset != 0 {
+				return asFuture(&chat.ChatAcknowledgement{Offset: newLastSeenMessages.Offset})
 			}
 			return asFuture(nil)
 		}
@@ -175,8 +181,8 @@ func (c *chatHandler) handleOldSignedChat(server netmc.MinecraftConn, packet *ch
 	return packet
 }
 
-func (c *chatHandler) invalidCancel(log logr.Logger, player *connectedPlayer) {
-	c.invalidMessage(log.WithName("invalidCancel"), player)
+func (c *chatHandler) invalidCancel(log logr.Logger, player *connectedPlayer) bool {
+	return c.invalidMessage(log.WithName("invalidCancel"), player)
 }
 
 func (c *chatHandler) invalidChange(log logr.Logger, player *connectedPlayer) bool {
